@@ -19,6 +19,7 @@ import DeapModel.Lemmas.C20MPTotal
 import DeapModel.Lemmas.C20Misc
 import DeapModel.Lemmas.C20World
 import DeapModel.Lemmas.C20Ind
+import DeapModel.Lemmas.C20Gen
 import Mathlib.Analysis.SpecialFunctions.Trigonometric.Basic
 import Mathlib.Analysis.SpecialFunctions.Pow.Real
 import Mathlib.Data.Matrix.Mul
